@@ -170,3 +170,27 @@ Definition mirror (a : position) : position :=
   {| brd := fun s => match brd a (mirror_sq s) with Some (c, k) => Some (opp c, k) | None => None end;
      turn := opp (turn a); rK := fun c => rK a (opp c); rQ := fun c => rQ a (opp c);
      ep := option_map mirror_sq (ep a); ply := ply a |}.
+
+(* forced mates by the rules alone (AND/OR search on mate distance, independent of any evaluation):
+   [mate_score n a] = Some k  (k > 0): the side to move can force mate in exactly k plies (k odd, shortest);
+                      Some (-k) (k >= 0): the side to move is mated in exactly k plies whatever it does (k even, longest defence);
+                      None: neither within n plies.  A stalemate is None. *)
+Fixpoint mate_score (n : nat) (a : position) : option Z :=
+  let ms := legal_moves a in
+  match ms with
+  | [] => if in_check (brd a) (turn a) then Some 0 else None
+  | _ =>
+    match n with
+    | O => None
+    | S k =>
+        (* child value v (from the opponent's view): Some (-j) opponent mated in j -> we mate in j+1; Some j -> we are mated in j+1 *)
+        let vals := map (fun m => match mate_score k (apply a m) with
+                                  | Some v => if v <=? 0 then Some (1 - v) else Some (- (v + 1))
+                                  | None => None end) ms in
+        if existsb (fun v => match v with Some x => 0 <? x | None => false end) vals
+        then fold_left (fun acc v => match v with Some x => if 0 <? x then (match acc with Some y => Some (Z.min x y) | None => Some x end) else acc | None => acc end) vals None
+        else if forallb (fun v => match v with Some _ => true | None => false end) vals
+        then fold_left (fun acc v => match v, acc with Some x, Some y => Some (Z.min x y) | Some x, None => Some x | None, _ => acc end) vals None
+        else None
+    end
+  end.
